@@ -183,9 +183,11 @@ func TestRecursiveRLockDeadlock(t *testing.T) {
 
 func TestTimerSemantics(t *testing.T) {
 	for _, sem := range []TimerSem{TimerGo123, TimerLegacy} {
-		set, _ := outcomes(t, Options{Bound: 2, TimerSem: sem, AutoClock: true}, func(out *[]string) {
+		// bound 0: timers are delivered promptly (a due timer may otherwise be
+		// starved while the clock moves on, at a cost)
+		set, _ := outcomes(t, Options{Bound: 0, TimerSem: sem, AutoClock: true}, func(out *[]string) {
 			tm := TimeNewTimer(time.Second)
-			TimeSleep(2 * time.Second) // timer certainly fired
+			TimeSleep(2 * time.Second) // timer fired
 			stopped := tm.Stop()
 			_, _, got := tm.C.TryRecv()
 			*out = append(*out, fmt.Sprint(stopped, got))
